@@ -59,6 +59,10 @@ EXPLANATION += (
     'result.'
 )
 
+EXPLANATION += (
+    ' Round 5: every verdict of the gene renaming step follows a call of the mapper (R-MUST/mapper-consulted); settings are forwarded (R-FWD).'
+)
+
 RULE_TEXT = (
     "one obligation per effect root, per mutating helper call, per "
     "rejection point, per log conditional, per layer argument, per uns "
@@ -95,11 +99,16 @@ def check(ctx):
     check_layer(ctx, inner)
     check_uns(ctx, inner)
     check_lookup_by_given_name(ctx)
+    check_mapper_consulted(ctx)
     from .C05 import check_tiles
     check_tiles(ctx, ('validation.utils', 'validation.validate_h5ad'),
                 floor=8)
     from .C05 import sweep_generic_rules
     sweep_generic_rules(ctx, ('validation.',))
+    # settings this property depends on are handed down every call
+    # chain, never left to a callee's default (sa/rules/forwarding.py)
+    from ..rules.forwarding import check_forwarding
+    check_forwarding(ctx, {'layer', 'round_to_int', 'valid_h5ad_path', 'output_dir', 'gene_id_mapper', 'expected_max'})
 
 
 def check_input_effects(ctx, pa, outer, inner):
@@ -663,3 +672,45 @@ def check_lookup_by_given_name(ctx):
                        'suffix clipping is applied to the mapped result'
                        if ok else
                        'suffix clipping is applied to the input list')
+
+
+def check_mapper_consulted(ctx):
+    """the verdict of the gene-renaming step -- including "nothing to
+    rename" -- is given only after the mapper has been asked: clipping of
+    version suffixes, placeholders for unknown names and the collision
+    check all happen inside the mapper, so a return that is reachable
+    without the call leaves identifiers as they were."""
+    db = ctx.db
+    fi = db.fn('validation.utils:map_gene_ids_in_var')
+    ctx.touch(fi)
+    cfg = cfg_of(fi)
+    rd = rd_of(fi)
+    target = db.fn(
+        'gene_id.gene_id_mapper:GeneIdMapper.map_gene_identifiers')
+    rule = 'R-MUST/mapper-consulted'
+    consult = set()
+    for n in cfg.nodes:
+        if n.id not in rd.live:
+            continue
+        for c in cfg.calls_in(n):
+            if isinstance(c.func, ast.Attribute) \
+                    and c.func.attr == target.name:
+                consult.add(n.id)
+    if not consult:
+        ctx.fail(rule, 'map_gene_ids_in_var:call', fi.loc(),
+                 'no call of the mapper was found')
+        return
+    k = 0
+    for r in cfg.nodes:
+        if r.kind != 'return' or r.id not in rd.live:
+            continue
+        p = cfg.path(cfg.entry, {r.id}, avoid=lambda x: x.id in consult,
+                     edge_ok=lambda a, b, lab: lab != 'exc')
+        ok = p is None
+        ctx.ob(rule, f'map_gene_ids_in_var:return#{k}', fi.loc(r.ast), ok,
+               'the verdict is given after the mapper was consulted' if ok
+               else f'`{unparse(r.ast)[:50]}` can be reached without the '
+               'mapper having seen the identifiers: version suffixes are '
+               'not clipped and nothing is recorded',
+               witness=cfg.fmt_path(p) if p else None)
+        k += 1
